@@ -1554,6 +1554,11 @@ class Parameter(_ParameterBase):
             ref, deps, val, is_async = obj.param._resolve_ref(self, val)
             resolved = True
             if is_async or val is Undefined:
+                if ref is not None and (self.constant or self.readonly):
+                    # The value arrives later: it could only be refused
+                    # after the link has been made
+                    raise TypeError("%s parameter '%s' cannot be linked to a reference"
+                                    % ("Read-only" if self.readonly else "Constant", name))
                 self._update_ref(obj, ref)
                 return
 
@@ -1583,7 +1588,9 @@ class Parameter(_ParameterBase):
                 obj._param__private.values[self.name] = val
             else:
                 _old = obj._param__private.values.get(self.name, self.default)
-                if val is not _old:
+                # (a reference is refused even if it currently resolves to
+                # the object held: its source would rebind the constant later)
+                if val is not _old or (resolved and ref is not None):
                     raise TypeError("Constant parameter '%s' cannot be modified" % name)
         else:
             if obj is None:
